@@ -3,6 +3,7 @@ import RF.Driver.CargoFmt
 import RF.Driver.FormatLines
 import RF.Driver.FileLines
 import RF.Driver.FormatDiff
+import RF.Driver.Backup
 /-!
 `rfmodel`: one request per line on stdin, one response per line on stdout.
 `?` is printed for a request no handler understands (the harness treats it as a protocol error,
@@ -14,7 +15,8 @@ def handlers : List (String → List String → Option String) :=
    RF.Driver.CargoFmt.handle,
    RF.Driver.FormatLines.handle,
    RF.Driver.FileLines.handle,
-   RF.Driver.FormatDiff.handle]
+   RF.Driver.FormatDiff.handle,
+   RF.Driver.Backup.handle]
 
 def dispatch (line : String) : String :=
   match (line.trimAscii.toString.splitOn " ").filter (· ≠ "") with
